@@ -155,15 +155,16 @@ deriving Repr, DecidableEq, BEq
 
 structure ESt (P : Type) where
   phase : Phase
-  node : Rec
+  node : Nat                            -- record index of the current node view
   stack : List Frame                    -- head = top
   syls : List Nat                       -- head = last pushed
   results : List (List Nat × List P)    -- head = top
   done : Bool
   out : List (List Nat × List P)        -- emitted so far, head = last emitted
 
-def Frame.next (t : Tbl P) (f : Frame) : Option (Rec × Frame) :=
-  if f.cur < f.end_ then some (t.get f.cur, { f with cur := f.cur + 1 }) else none
+/-- `child_iter.next()`: the record index of the next child view -/
+def Frame.next (f : Frame) : Option (Nat × Frame) :=
+  if f.cur < f.end_ then some (f.cur, { f with cur := f.cur + 1 }) else none
 
 def ESt.finish (st : ESt P) : ESt P := { st with phase := .finished }
 
@@ -176,7 +177,7 @@ def tick (t : Tbl P) (st : ESt P) : Outcome (ESt P) :=
     | r :: rs => .ok { st with results := rs, out := r :: st.out }      -- `return results.pop()`
     | [] => if st.done then .ok st.finish else .ok { st with phase := .descend }
   | .descend =>
-    let nd := st.node
+    let nd := t.get st.node
     if oob nd.a (nd.a + nd.b) t.n then .ok st.finish                    -- `return None`
     else
       match sliceRecs t nd.a (nd.a + nd.b) with
@@ -184,10 +185,10 @@ def tick (t : Tbl P) (st : ESt P) : Outcome (ESt P) :=
       | .outOfFuel => .outOfFuel
       | .ok _ =>
         let it : Frame := { cur := nd.a, end_ := nd.a + nd.b }
-        match it.next t with
+        match it.next with
         | none => .panic "trie:expect-at-least-one-child"
         | some (first, it1) =>
-          if first.s == 0 then
+          if (t.get first).s == 0 then
             -- found a leaf syllable node
             match leafAt t nd.a with
             | .panic s => .panic s
@@ -202,21 +203,21 @@ def tick (t : Tbl P) (st : ESt P) : Outcome (ESt P) :=
                 | .outOfFuel => .outOfFuel
                 | .ok ps =>
                   let st1 := { st with results := (st.syls.reverse, ps) :: st.results }
-                  match it1.next t with
+                  match it1.next with
                   | none => .ok { st1 with phase := .ascend }                 -- `break`
                   | some (second, it2) =>
-                    .ok { st1 with node := second, syls := second.s :: st.syls, stack := it2 :: st.stack }
+                    .ok { st1 with node := second, syls := (t.get second).s :: st.syls, stack := it2 :: st.stack }
           else
-            .ok { st with node := first, syls := first.s :: st.syls, stack := it1 :: st.stack }
+            .ok { st with node := first, syls := (t.get first).s :: st.syls, stack := it1 :: st.stack }
   | .ascend =>
     match st.stack with
     | [] => .ok { st with done := true, phase := .callEnd }
     | f :: rest =>
       let syls := st.syls.tail                                             -- `syllables.pop()`
-      match f.next t with
+      match f.next with
       | some (nx, f') =>
-        if nx.s == 0 then .panic "trie:debug-assert-zero-syllable"          -- `debug_assert_ne!(next.syllable(), 0)`
-        else .ok { st with node := nx, stack := f' :: rest, syls := nx.s :: syls, phase := .callEnd }
+        if (t.get nx).s == 0 then .panic "trie:debug-assert-zero-syllable"   -- `debug_assert_ne!(next.syllable(), 0)`
+        else .ok { st with node := nx, stack := f' :: rest, syls := (t.get nx).s :: syls, phase := .callEnd }
       | none => .ok { st with stack := rest, syls := syls }
   | .callEnd =>
     match st.results with
@@ -239,7 +240,7 @@ def entriesInit (t : Tbl P) : Option (ESt P) :=
   else
     let root := t.get 0
     if root.b == 0 then none
-    else some { phase := .callStart, node := root, stack := [], syls := [], results := [], done := false, out := [] }
+    else some { phase := .callStart, node := 0, stack := [], syls := [], results := [], done := false, out := [] }
 
 /-- `Trie::entries()` drained, as leaf groups `(syllables, phrases)` in iteration order, with
     `fuel` loop iterations -/
